@@ -267,6 +267,25 @@ fn index_width_cases(coin: &'static Coin) -> Vec<(String, ChainBuilder)> {
         cb.push(vec![spender]);
         v.push((format!("{}-outputs spent at {:?}", n_out, spend), cb));
     }
+    // large values and long accumulation: per-address sums beyond 2^32, 2^53 and close to 2^64; 3000 outputs to one address
+    {
+        let mut cb = ChainBuilder::with_genesis(coin);
+        let a = script::p2pkh(&script::h20(77));
+        let b = script::p2pkh(&script::h20(78));
+        let outs = vec![
+            TxOut { value: (1u64 << 62) + 1, script: a.clone() },
+            TxOut { value: (1u64 << 62) + 3, script: a.clone() },
+            TxOut { value: (1u64 << 63) - 9, script: a.clone() },
+            TxOut { value: (1u64 << 53) + 1, script: b.clone() },
+            TxOut { value: 1, script: b.clone() },
+            TxOut { value: u32::MAX as u64, script: b.clone() },
+            TxOut { value: 2, script: b.clone() },
+        ];
+        cb.push(vec![Tx { version: 1, segwit: false, inputs: vec![TxIn::spend([0xee; 32], 0)], outputs: outs, locktime: 0 }]);
+        let many: Vec<TxOut> = (0..3000usize).map(|i| TxOut { value: 3_000_000_000 + i as u64, script: script::p2pkh(&script::h20(79)) }).collect();
+        cb.push(vec![Tx { version: 1, segwit: false, inputs: vec![TxIn::spend([0xee; 32], 1)], outputs: many, locktime: 0 }]);
+        v.push(("large values (sums beyond 2^32 / 2^53 / near 2^64) and 3000 outputs to one address".to_string(), cb));
+    }
     v
 }
 
@@ -300,6 +319,7 @@ pub fn run(prop: &str) -> Report {
         }
         items.push(Item::W(cname, 0));
         items.push(Item::W(cname, 1));
+        items.push(Item::W(cname, 2));
     }
     let cap = wall_cap();
     let t0 = std::time::Instant::now();
